@@ -103,6 +103,13 @@ def decodeHeader (bs : Bytes) : Option Seg :=
     some { size := headerSize + dataSize, table := decodeEntries count (bs.drop 24) }
   else none
 
+/-- `ShmAttach(name, mapped)` + `validateHeader`: a peer may attach only with the mapping size the
+header's data_size field documents. -/
+def validateAttach (bs : Bytes) (mapped : Nat) : Bool :=
+  match decodeHeader bs with
+  | some s' => decide (s'.size = mapped)
+  | none => false
+
 /-! ### Operation interpreter (shared by the theorems and the driver) -/
 
 inductive Op
